@@ -58,6 +58,19 @@ def cases(rng, tier):
         f32 = 0 if rng.random() < 0.12 else None       # a single-precision model (leaf 0) against double-precision data
         out.append({"f32": f32, "leaves": leaves, "masks": masks, "prog": gen_prog(rng, len(leaves), rng.randint(1, 3), N, shape),
                     "head": rng.choice(HEADS), "prog2": gen_prog(rng, len(leaves), 1, N, shape), "seed": rng.randrange(1 << 30)})
+    # genuinely small tensors (entries 1e-9 … 1e-22, no cancellation): the square-root heads have scale-free gradients x/‖x‖, which a
+    # floor or clamp on the squared norm would silently replace by 0
+    for _ in range({"quick": 40, "thorough": 250, "search": 100}[tier]):
+        N = rng.choice([1, 2, 3])
+        shape = [rng.randint(2, 4) for _ in range(N)]
+        sc = 10.0 ** (-rng.choice([9, 12, 16, 20, 22]) / N)
+        leaves, masks = [], []
+        for li in range(2):
+            t = gen_tensor(rng, shape, rmax=2, stream="float")
+            t = PT([np.asarray(c, dtype=np.float64) * sc for c in t.cores], t.Us)
+            leaves.append(t.to_json()); masks.append([[True] * N, [rng.random() < 0.6 for _ in range(N)]])
+        out.append({"f32": None, "tiny": True, "leaves": leaves, "masks": masks, "prog": ["leaf", 0], "head": rng.choice(["norm", "norm", "readme", "dist"]),
+                    "prog2": ["leaf", 1], "seed": rng.randrange(1 << 30)})
     return out
 
 
@@ -187,14 +200,20 @@ def run_case(ctx, case):
         return
     g1 = torch.autograd.grad(val, params, allow_unused=True)
     g2 = torch.autograd.grad(val2, params2, allow_unused=True)
-    if h in ("norm", "dist", "readme") and abs(float(val2)) < 1e-6:
+    if case.get("tiny"):
+        ctx.count("tiny-magnitude leaves")
+        if not (float(val2) > 0 and abs(float(val) / float(val2) - 1) < 1e-6):
+            ctx.oracle("values differ on a small tensor: compressed %r dense %r (head %s)" % (float(val), float(val2), h), case,
+                       cls={"op": "value", "predicate": "tiny-magnitude leaves"})
+            return
+    elif h in ("norm", "dist", "readme") and abs(float(val2)) < 1e-6:
         # a square root taken at (numerically) zero: the compressed path cancels to rounding noise of the operands' scale, whose
         # square root is ~1e-8; compare the squares against the operands' scale, and take no gradient (sqrt is not differentiable at 0)
         S = 1.0 + sum(float((x.detach() ** 2).sum()) for x in dl)
         if float(val) ** 2 > 1e-12 * S * S:
             ctx.oracle("values differ at a cancelling program: compressed %r dense %r" % (float(val), float(val2)), case)
         ctx.count("skipped:sqrt at 0"); return
-    if not close(val.detach().double().numpy(), val2.detach().double().numpy(), VT)[0]:
+    if not case.get("tiny") and not close(val.detach().double().numpy(), val2.detach().double().numpy(), VT)[0]:
         ctx.oracle("values differ: compressed %r dense %r" % (float(val), float(val2)), case)
         return
     scale = max([float(g.abs().max()) for g in g2 if g is not None] + [1e-12])
